@@ -373,7 +373,11 @@ func (s *Translator) buildTraversalPatternRoot(partFrame *Frame, traversalStep *
 		return s.buildDirectionlessTraversalPatternRoot(traversalStep)
 	}
 
-	if traversalStep.UseExpandInto {
+	// Both endpoints carried by the previous frame constrain the edge directly. Joining the node table for an
+	// endpoint that is already carried would multiply the rows; steps synthesised by the exact-range lowering
+	// reach this point without an expand-into decision.
+	if traversalStep.UseExpandInto ||
+		(traversalStep.LeftNodeBound && traversalStep.RightNodeBound && partFrame != nil && partFrame.Previous != nil) {
 		return s.buildBoundEndpointTraversalPattern(partFrame, traversalStep)
 	}
 
